@@ -40,6 +40,7 @@ pub fn info(prop: &str) -> PropInfo {
         "C12" => ("exploration", "0-3 open streams (request side open or closed), 0-3 blocked pulls, in-flight ack/modify/pull, DeleteSubscription at 0-6 ticks, many scheduler seeds; non-trivial = DeleteSubscription invoked while >=1 stream or blocked pull was waiting on it; distinct by (scheduler seed, operation list)"),
         "C13" => ("exploration", "N in {0,1,2,19,20,21,40,...} resources over 2 projects built by create/delete histories; full walks of the three list RPCs with boundary page sizes; hostile page tokens; non-trivial = a walk of >=2 pages over a list that saw a deletion, or a hostile token; distinct by hash of the operation list"),
         "C15" => ("exploration", "max_messages / max_outstanding_messages from boundary sets around 1000 and 65535/65536, backlogs around those sizes, blocking and non-blocking pulls; non-trivial = backlog larger than the limit, a limit >=65535, or a blocking pull that had to wait; distinct by hash of the operation list"),
+        "C14" => ("fault_enumeration", "one push subscription per case, each with its own URL path on a scripted loopback HTTP endpoint and its own per-attempt fault script over {200,201,202,204, 102-then-silence, 100-then-silence, 301, 400, 404, 429, 500, 503, reset, close-without-answer, stall, 200-after-300ms}: every single behaviour, failure-then-X pairs (all pairs across the thorough batches), random triples, 1-3 messages with varied payloads, pull-only control subscriptions and subscriptions deleted mid-way; oracle from the endpoint's own log; non-trivial = a script with a failure followed by an accepting answer, or a transport-level fault; distinct by hash of the case"),
         "C16" => ("fault_enumeration", "every request kind (13 unary RPCs, push-subscription create, stream open, stream control message) x drop after k = 0..12 polls of its future x {no, topic, subscription, both} mailboxes saturated by 17-40 state-neutral requests x {one scheduler tick, a full settle} between polls, plus proptest-generated prefixes; oracle = the observable state (all listings, resources, stats, push registry, an attach probe, and what is obtainable after the ack deadline) equals that of a reference run with the request completed or that of one with the request never sent; non-trivial = the drop happened after at least one poll, i.e. inside the handler; distinct by (kind, k, saturation, pacing)"),
         "C17" => ("exploration", "one to four requests per case against a prepared instance (2 topics, 3 subscriptions, outstanding deliveries, an open stream) with fields drawn from structured pools: near-miss / empty / huge / non-ASCII / slash-heavy names, malformed ack ids, boundary integers, page tokens, push endpoints, inconsistent StreamingPull control messages; the observable state is rendered before and after every request; non-trivial = a request that must be rejected although it also carries valid, effect-bearing elements; distinct by hash of the operation list"),
         "C18" => ("exploration", "exhaustive enumeration of projects/ + up to 5 (quick) / 7 (thorough) tokens from {a,b,/,e-acute,topics,subscriptions,projects,-,1} and of all strings of up to 5 raw symbols, plus proptest pairs of grammar-valid names, near-miss mutations and arbitrary UTF-8; oracle = independent reference grammar, echo round trip, injectivity; non-trivial = string starts with projects/ and contains >=2 further slashes; distinct strings counted"),
@@ -48,6 +49,7 @@ pub fn info(prop: &str) -> PropInfo {
     };
     let assumptions: &'static [&'static str] = match prop {
         "C18" => &["TopicName::try_parse / SubscriptionName::try_parse / Display are the parsers every RPC goes through (src/api/parser.rs)", "empty project or resource IDs are outside the grammar"],
+        "C14" => &["real loopback TCP and real time: the inputs are a function of the seed, the timing is not", "push interval 20 ms, ack deadline 10 s, observation 19 s per batch; a failed push must be followed by another POST within 6 s (16 s when the endpoint never answered), an accepted one by none", "hyper treats every 1xx answer as interim: status 102 can never be seen as a final answer by the push loop (known finding)"],
         "C16" => &["in-process transport: dropping the client call future drops the handler at its current suspension point (over HTTP/2 the cancellation arrives a few scheduler turns later; not modelled)", "the reference runs are executions of the same implementation on the same seeds: the oracle is the metamorphic relation abandon(k) in {completed, never sent} plus the absolute attach probe", "saturation uses state-neutral requests only (GetSubscription, ListTopicSubscriptions)"],
         "C19" => &["explorer polls are atomic: interleavings inside one poll are only reached by the real-thread stress, which is not a pure function of the seed", "a waiter that has not resumed 20 s after capacity was freed on an otherwise idle process is taken as never resuming"],
         _ => SIM_ASSUMPTIONS,
@@ -586,6 +588,10 @@ pub fn run_worker(ctx: &WorkerCtx) -> WorkerOut {
         "C09" => {
             let nt = |_: &Case, r: &Report| r.feat.redelivered_with_attrs_or_binary || r.feat.topic_instances_same_name >= 2;
             run_sim_stage(ctx, SimStage { name: "payloads", strategy: c09_strategy(), cfg: sim_cfg(false), cases: ctx.share(scale(t, 4_000, 80_000)), nontrivial: &nt, classes: &std_classes, extra: None }, &mut out);
+            // push delivery path (real HTTP endpoint)
+            if out.failure.is_none() {
+                crate::push::push_check(ctx, &mut out, 1);
+            }
         }
         "C10" => {
             let nt = |_: &Case, r: &Report| r.feat.overlapping_control_on_name;
@@ -611,6 +617,7 @@ pub fn run_worker(ctx: &WorkerCtx) -> WorkerOut {
                 run_sim_stage(ctx, SimStage { name: "limits_big", strategy: c15_strategy(true), cfg: sim_cfg(false), cases: ctx.share(scale(t, 0, 400)), nontrivial: &nt, classes: &std_classes, extra: None }, &mut out);
             }
         }
+        "C14" => crate::push::push_check(ctx, &mut out, if t == Tier::Thorough { 3 } else { 1 }),
         "C16" => crate::c16::c16_check(ctx, &mut out),
         "C17" => {
             let nt = |c: &Case, _: &Report| crate::c17::has_mixed_rejection(c);
@@ -666,6 +673,7 @@ pub fn replay_input(prop: &str, input: &serde_json::Value) -> Result<Vec<Violati
         }
         "pure_names" => Ok(crate::pure::replay_names(input)),
         "c16" => crate::c16::replay_c16(input),
+        "push" => crate::push::replay_push(input),
         "flow_explorer" | "flow_stress" => crate::flow::replay_flow(input),
         other => Err(format!("unknown engine {}", other)),
     }
